@@ -710,6 +710,9 @@ var synDirectedDec = []string{
 	"T0=Present~i~;A~*t~referenceFieldValue:1|T1=Id~e~valueLB:0,valueUB:9;Value~S0~openType,referenceFieldName:Id S1 - 100180",
 	"T0=Present~i~;A~*t~referenceFieldValue:1|T1=Id~i~valueLB:0,valueUB:9;Value~S0~openType,referenceFieldName:Id S1 - 100180",
 	"T0=Present~i~;A~*t~referenceFieldValue:1|T1=Id~i~valueLB:0,valueUB:9;Value~S0~openType,referenceFieldName:Id S1 - 200180",
+	// the length-of-length bits of a large INTEGER range run over the end of the input (7 BOOLEANs, then two bits)
+	"T0=A~t~;B~t~;C~t~;D~t~;E~t~;F~t~;G~t~;H~i~valueLB:0,valueUB:4294967295 S0 - fe",
+	"T0=A~t~;B~t~;C~t~;D~t~;E~t~;F~t~;G~t~;H~i~valueLB:0,valueUB:4294967295 S0 - fe0005",
 	"T0=A~t~ S0 - -", "T0=A~t~ S0 valueExt -", "T0=A~t~ S0 valueExt 80", "T0=A~t~ S0 valueExt c0", "T0=A~t~ S0 - 80",
 	"T0=A~i~valueLB:5,valueUB:5 S0 - 00", "T0=A~i~ S0 - 0180", "T0=A~i~ S0 - 02ff7f", "T0=A~i~ S0 - 00", "T0=A~i~ S0 - 09000000000000000001",
 	"T0=A~i~valueLB:-5 S0 - 01ff", "T0=A~i~valueLB:-5 S0 - 087fffffffffffffff", "T0=A~i~valueLB:0 S0 - 08ffffffffffffffff",
